@@ -190,6 +190,33 @@ def mb_sm5_reference(mb, alpha_s, scale):
     return mb * Fb(mp.mpf(alpha_s)) / Fb(a_mb) * (1 + x * (-mp.mpf(1) / 3 - mp.mpf(29) / 72 * x))
 
 
+def mb_sm6_reference(mb, mt, alpha_s, mz, q):
+    """m_b(SM6, Q) as documented: five-flavour running from m_b to m_t^pole (F_b ratio, three-loop alpha_s on the
+    Lambda_QCD trajectory through alpha_s(MZ)), then dm/dlog Q = -2/pi alpha_s(m_t) m above m_t^pole.
+    -> (value, alpha_s(m_t)) or None if Lambda_QCD cannot be bracketed"""
+    mp.mp.dps = 30
+    pi = mp.pi
+
+    def alpha_at(qq, lam):
+        t = mp.log((qq / lam) ** 2)
+        lt = mp.log(t)
+        b = mp.mpf(348) / 529
+        return 12 * pi / 23 / t * (1 + (-b * lt + b * b / t * ((lt - mp.mpf(1) / 2) ** 2 - mp.mpf(78073) / 242208)) / t)
+
+    f = lambda lam: alpha_s - alpha_at(mp.mpf(mz), lam)
+    lo, hi = mp.mpf("0.001"), mp.mpf(10)
+    if f(lo) * f(hi) > 0:
+        return None
+    lam = mp.findroot(f, (lo, hi), solver="anderson", tol=1e-25, maxsteps=200)
+    a_mb, a_mt = alpha_at(mp.mpf(mb), lam), alpha_at(mp.mpf(mt), lam)
+
+    def Fb(a):
+        x = a / pi
+        return (mp.mpf(23) / 6 * x) ** (mp.mpf(12) / 23) * (1 + x * (mp.mpf(3731) / 3174 + mp.mpf("1.500706") * x))
+
+    return mb * Fb(a_mt) / Fb(a_mb) * (mp.mpf(q) / mt) ** (-2 / pi * a_mt), a_mt
+
+
 def landau(mb, alpha_s, scale):
     """True iff the three-loop alpha_s(m_b) that belongs to alpha_s(scale) is not a positive real number
     (Lambda_QCD at or above m_b: perturbative running undefined)"""
@@ -245,6 +272,22 @@ def prop_run(case):
     mtt, _ = mf("mtau_SM6", c["mtau"], c["aem"], c["mtau"])
     if mtt != c["mtau"]:
         bad.append(("mtau_SM6", "boundary value m_tau(m_tau) != m_tau", mtt, c["mtau"]))
+    # the documented running itself: m_t(Q) = m_t(m_t) (Q/m_t)^(-2 alpha_s(m_t)/pi), m_tau(Q) = m_tau (Q/m_tau)^(-3 alpha/(2 pi)),
+    # m_b(Q) = five-flavour running up to m_t^pole times (Q/m_t)^(-2 alpha_s(m_t)/pi)  (m_b(m_t) is the boundary value
+    # that makes the six-flavour mass continuous with the five-flavour running)
+    if "mt_SM6" in vals:
+        w = want * (q / c["mt"]) ** (-2 / math.pi * as_mt)
+        if abs(vals["mt_SM6"][0] - w) > 1e-12 * w:
+            bad.append(("mt_SM6", "differs from m_t(m_t) (Q/m_t)^(-2 alpha_s(m_t)/pi)", q, vals["mt_SM6"][0], w))
+    if "mtau_SM6" in vals:
+        w = c["mtau"] * (q / c["mtau"]) ** (-3 / (2 * math.pi) * c["aem"])
+        if abs(vals["mtau_SM6"][0] - w) > 1e-12 * w:
+            bad.append(("mtau_SM6", "differs from m_tau (Q/m_tau)^(-3 alpha/(2 pi))", q, vals["mtau_SM6"][0], w))
+    if "mb_SM6" in vals and not lp6:
+        ref6 = mb_sm6_reference(c["mb"], c["mt"], c["as"], c["mz"], q)
+        if ref6 is not None and abs(mp.mpf(vals["mb_SM6"][0]) - ref6[0]) > mp.mpf("1e-8") * ref6[0]:
+            bad.append(("mb_SM6", "differs from the independent implementation of the documented running", q,
+                        vals["mb_SM6"][0], float(ref6[0])))
     # Lambda_QCD fallback: finite result + warning
     # mb(SM5, DR-bar) is the MSSM's m_b(MZ): it is evaluated at the Z mass, as its only caller does
     scale5 = c["mz"]
